@@ -117,7 +117,7 @@ impl BoxedUint {
     ///
     /// TODO: maybe some better documentation is needed
     pub fn inv_mod(&self, modulus: &Self) -> CtOption<Self> {
-        debug_assert_eq!(self.bits_precision(), modulus.bits_precision());
+        assert_eq!(self.bits_precision(), modulus.bits_precision());
         let k = modulus.trailing_zeros();
         let (s, _overflowed) = modulus.overflowing_shr(k);
 
